@@ -19,6 +19,13 @@ pub mod verif_facade {
             let arg = |i: usize| -> Vec<u8> { args.get(i).map(|s| if s == "-" { Vec::new() } else { unhex(s) }).unwrap_or_default() };
             match cmd.as_str() {
                 "depfile" => crate::depfile::verif_depfile(arg(0)),
+                "excerpt" => crate::scanner::verif_excerpt(arg(0), args.get(1).and_then(|s| s.parse().ok()).unwrap_or(0)),
+                "load" => crate::load::verif_load_text(arg(0)),
+                "canon" => {
+                    let mut s = unsafe { String::from_utf8_unchecked(arg(0)) };
+                    crate::canon::canonicalize_path(&mut s);
+                    format!("ok {}", s.as_bytes().iter().map(|x| format!("{:02x}", x)).collect::<Vec<_>>().join(""))
+                }
                 other => format!("UNKNOWN {}", other),
             }
         });
